@@ -11,7 +11,14 @@ PROP = {
              "extracted model (signature and highload random given as oracle columns); CreateMessageBody with Sendables and every V5 message "
              "type; VerifySignature / MessageV5VerifySignature with own key, another key, a 31-byte key, other versions, sampled single-bit "
              "flips, truncated / reference-dropped / random bodies (the Ed25519 verdict over the independently cut signed part is an oracle "
-             "table; the checked hash is part of the compared result); Decode*/ExtractRawMessages of own, cross-version and malformed bodies. "
+             "table; the checked hash is part of the compared result); Decode*/ExtractRawMessages of own, cross-version and malformed bodies; "
+             "v5r1 CreateSignedMsgBodyCell with 0..4 extended actions (add / remove extension with addr_std (anycast or not), addr_none, "
+             "addr_extern, addr_var; set_signature_allowed both ways; every V5 message type): body bits and hash, then the message "
+             "around it verified, bit-flipped and decoded (messages AND extended actions compared); the same signed body re-wrapped by "
+             "tlb.Marshal under 7 other envelopes (destination anycast + external source + import fee; init inline; init by reference "
+             "with a library dictionary; init inline with libraries; body inline and any destination form; internal message with "
+             "extra currencies; external-out message): verification verdict and decoding vs the model, which starts from the full "
+             "message cell. "
              "Oracles on the implementation: returned hash = hash of the payload, signature valid over the hash of the signed part cut by "
              "position, accepted under the own key, rejected as ErrBadSignature under another key, EVERY single-bit flip of the signed bits "
              "+ 16 signature bits + every referenced cell rejected, ExtractRawMessages = the requested (cell, mode) list in order, decoded "
@@ -24,11 +31,17 @@ PROP = {
                     "its key; under an ideal signature no other key and (with no second preimage of the signed cell) no message with a changed "
                     "signed bit or reference verifies; decoding returns the wallet id, expiry, seqno and exactly the requested messages and "
                     "modes in order for every count up to the limit (highload through the dictionary theorems of C05); more than 4/4/254/255/254 "
-                    "messages is an error; body layouts bit by bit. coq/Properties/C14_gen.v re-checks limits, opcodes and the action magic "
+                    "messages is an error; body layouts bit by bit; v5r1 extended actions: layout (first action inline, the rest chained by "
+                    "references), the signature covers them, decoding returns them in order; the message decoder is modelled for every "
+                    "CommonMsgInfo constructor, MsgAddress form (anycast), init absent / by reference / inline with any StateInit incl. "
+                    "library dictionaries, body by reference / inline, with a round-trip theorem (C14_envelope_roundtrip) and "
+                    "C14_any_envelope_roundtrip: a built body under ANY such envelope decodes to the requested fields and verifies. "
+                    "coq/Properties/C14_gen.v re-checks limits, opcodes and the action magic "
                     "translated from today's wallet/*.go."),
     'assumptions': ["Ed25519 and the cell hash are parameters; 'no other key' / 'changed bit' hold under the stated hypotheses ideal_signature and no_second_preimage (idealisations, not proved of Ed25519/SHA-256)",
                     "highload message cells must be ordinary cell trees (the dictionary model of C05 has no exotic cells); other versions allow any cell",
-                    "the envelope decoder is modelled on the class the library itself produces (ext-in, src none, dest std without anycast, init absent or by reference without library); v5r1 extended actions are outside the model and skipped by the generator",
+                    "dictionaries inside an envelope (libraries, extra currencies) and the highload payload go through C05's ordinary-cell dictionary model: a dictionary containing an exotic cell answers Unmodelled (never generated)",
+                    "MsgAddress bits are those of C03's TlbCore.addr_bits / addr_parse (law C03_msgaddress_law)",
                     "the conversion Sendable -> internal message cell (tlb.Marshal of tlb.Message) is computed by the implementation and handed to the model as a cell (C03/C04 cover it)",
                     "V5Beta is not supported by VerifySignature (observation); MessageV5VerifySignature is the entry point used for it",
                     "the highload query id's low half is math/rand: reseeded per case and given to the model as a column"],
@@ -43,8 +56,8 @@ META = {
              "seqno and exactly the requested (message, mode) list in order; sends above 4/4/254/255/254 messages are refused; "
              "VerifySignature is characterised as 'iff the primitive accepts (signature at the layout position, hash of the rest)'. The "
              "extracted model (Gallina SHA-256 representation hash; signatures as oracle columns) reproduces hashes and bits of the "
-             "implementation's messages, its verification verdicts incl. the hash that was checked, and its decoders on ~620 (quick) / "
-             "~3200 (thorough) cases; the implementation is additionally checked on every single-bit flip of every kept message."),
+             "implementation's messages, its verification verdicts incl. the hash that was checked, and its decoders on ~760 (quick) / "
+             "~3900 (thorough) cases; the implementation is additionally checked on every single-bit flip of every kept message."),
     'design_ref': 'DESIGN.md §6 C14/C15, §7 F11',
     'note': ("One defect repaired in /repo (F11: a highload body with no messages was written as 'present dictionary -> empty cell' and "
              "could not be decoded by the library itself; now HashmapE). Trusted: Coq kernel, extraction, drivers, Go harness; Ed25519 is "
